@@ -49,7 +49,11 @@ def docs(ctx, n, finite=True, depth=4, plain=False):
 def size_corpus():
     """wide and deep documents that the random trees never reach (a small fixed-size buffer, a u8 counter, a sort or hash
     threshold, a recursion guard all need sizes): arrays / objects of 17, 33, 64, 130, 300 members incl. late repeats of early
-    elements and nested empty containers; nesting 17, 33, 64, 129, 130, 200 levels"""
+    elements and nested empty containers; nesting 17, 33, 64, 129, 130, 200 levels.
+
+    These documents go through EVERY operation of every property that calls docs().  The sizes beyond them -- strings and keys of
+    255 .. 65536 bytes, containers of 255 .. 1000 members -- are in sizes.py (big_corpus() below): the list-based model is quadratic
+    to cubic there, so each property picks its own (document, operation) pairs from that corpus and a model budget per case."""
     N = ('n',)
     out = []
     key = lambda i: ('k%03d' % i).encode()
@@ -68,6 +72,13 @@ def size_corpus():
             m = ('a', [m, ('o', [])]) if i % 2 else ('o', [(b'x', m)])
         out += [a, o, m]
     return out
+
+
+def big_corpus():
+    """(label, value) pairs of sizes.py: strings / keys of 255, 256, 257, 4096, 65535, 65536 bytes (array element, object value,
+    first / last key, top-level scalar, multi-byte text crossing 256) and containers of 255, 256, 257, 1000 members"""
+    from . import sizes
+    return sizes.string_docs() + sizes.container_docs()
 
 
 def keys_of(v):
